@@ -2,6 +2,7 @@ package generator
 
 import (
 	"fmt"
+	"strings"
 
 	"github.com/vkd/goag/specification"
 )
@@ -47,6 +48,9 @@ func NewSchema(s specification.Ref[specification.Schema], components Componenter
 
 	var customType Maybe[CustomType]
 	if specCustom, ok := schema.Value().Custom.Get(); ok {
+		if i := strings.LastIndex(specCustom, "/"); i >= 0 && !strings.Contains(specCustom[i+1:], ".") {
+			return zero, nil, fmt.Errorf("custom type %q: import path without a type name, expected 'import/path/pkg.Type'", specCustom)
+		}
 		ct, is := NewCustomType(specCustom, st)
 		customType = Just(ct)
 		ims = append(ims, is...)
